@@ -2,8 +2,9 @@
 
 TLC enumerates behaviours of spec/MC_boot.tla (profiles c12g: geometry/partition grid on canned
 BIOS / EFI / EFI+Mac images whose EFI and Mac sections have different sizes and whose catalog order
-differs from their name order; c12h: every transition of the bounded graph of edits that move the
-boot files before/after add_isohybrid; c12s: simulation seeded by --seed).  Each behaviour is
+differs from their name order, with and without second ISO9660 names (hard links) of the boot files
+made before add_eltorito; c12h: every transition of the bounded graph of edits that move the
+boot files or give them second names before/after add_isohybrid; c12s: simulation seeded by --seed).  Each behaviour is
 replayed on the real pycdlib (lazy and always-consistent objects, several namespace
 configurations), mastered with and without the isohybrid calls (differential run -> `diffkinds`),
 decoded by decoders/hybrid.py + decoders/eltorito.py, and judged by TLC (Judge_C12 over Boot.tla).
@@ -90,7 +91,7 @@ def run(ctx):
     rnd = random.Random(ctx.seed)
     if quick:
         plan = [('c12g', 1, 1, 0, None, None, ['plain', 'all', 'plain+ac'], 400),
-                ('c12h', 3, 1, 1, None, None, ['plain', 'udf', 'jol+ac'], 450),
+                ('c12h', 3, 1, 1, None, None, ['plain', 'udf', 'jol+ac'], 3300),
                 ('c12s', 8, 2, 2, 25, 9, ['plain', 'all'], 150)]
     else:
         plan = [('c12G', 1, 1, 0, None, None, ['plain', 'all+ac'], 2500),
@@ -106,7 +107,14 @@ def run(ctx):
         print('MC_boot %s: %s states generated, %s distinct, %d behaviours (%.1fs)' % (
             profile, st.get('generated'), st.get('distinct'), len(hs), st['wall_s']), flush=True)
         if len(hs) > cap:
-            hs = rnd.sample(hs, cap)
+            # stratified: behaviours that end with a hybrid image first (all of them if they fit), at
+            # least a sixth of the budget for those that end without one (only NoHybridLeftAfterRemoval
+            # is judged on them)
+            on = [hh for hh in hs if hh['exp']['hyb']['on']]
+            off = [hh for hh in hs if not hh['exp']['hyb']['on']]
+            n_off = min(len(off), max(cap // 6, cap - len(on)))
+            n_on = min(len(on), cap - n_off)
+            hs = rnd.sample(on, n_on) + rnd.sample(off, n_off)
         for hh in hs:
             hists.append(hh)
             for c in cfgs:
@@ -155,6 +163,7 @@ def run(ctx):
         'geometries': sorted(set('%dx%d' % (it['expect']['hyb']['sectors'], it['expect']['hyb']['heads']) for it in hyb)),
         'efi_mac': sorted(set('efi=%s,mac=%s' % (it['expect']['hyb']['efi'], it['expect']['hyb']['mac']) for it in hyb)),
         'max_cylinders': max(cyl or [0]), 'images_beyond_1024_cylinders': sum(1 for c in cyl if c > 1024),
+        'second_names': L.link_coverage(hists),
         'configurations': sorted(set(c for (_, c) in tasks)),
         'judge_states': sum(s.get('generated', 0) for s in jstats),
         'exhaustive': False,
@@ -163,6 +172,9 @@ def run(ctx):
         ctx.sample({'history': L.hist_brief(hists[i]), 'expected_hyb': hists[i]['exp']['hyb']})
     ctx.assumptions += ['decoders/hybrid.py implements the MBR/GPT (UEFI ch.5)/APM layouts correctly; CRC32 is zlib.crc32',
                         'isohybrid semantics as stated in the header of spec/Boot.tla (syslinux isohybrid)',
+                        'second names (hard links) of boot files: one alias per file, ISO9660 (+Rock Ridge) only, made from the original '
+                        'name before add_eltorito (canned prefixes) or at any later point (action AddLink); the alias is never the path '
+                        'given to add_eltorito; c12h is sampled in the quick tier: every behaviour that ends with a hybrid image, a sample of the others',
                         'images of 2 GiB and more are not built (TLC integers are 32 bit; thorough tier crosses 1024 cylinders with small geometries)']
 
 
